@@ -49,7 +49,7 @@ fn arg_src(tok: &str) -> String {
 }
 fn target_src(t: &mut Toks) -> String {
   match t.next() {
-    "next" => { let name = t.next(); let k: usize = t.next().parse().unwrap(); let args: Vec<String> = (0..k).map(|_| ae_src(t)).collect(); format!("-> :{}({})", name, args.join(", ")) }
+    w @ ("next" | "anext") => { let name = t.next(); let k: usize = t.next().parse().unwrap(); let args: Vec<String> = (0..k).map(|_| ae_src(t)).collect(); format!("{} :{}({})", if w == "next" { "->" } else { "~>" }, name, args.join(", ")) }
     _ => format!("=> {}", e_src(t)),
   }
 }
@@ -205,6 +205,8 @@ pub fn generate(seed: u64, thorough: bool, sink: &mut Sink) -> Vec<String> {
         arms.push(format!("{} {} {} {}", names[si], k, pats.join(" "), body));
       }
     }
+    // one machine in four writes some of its transitions `~>` (asynchronous): validated and taken like `->`
+    if crng.chance(1, 4) { for a in arms.iter_mut() { let parts: Vec<String> = a.split(' ').map(|w| if w == "next" && crng.chance(1, 2) { "anext".to_string() } else { w.to_string() }).collect(); *a = parts.join(" "); } sink.hit("asynchronous-transitions"); }
     arms.push(if ill == 4 { format!("Done 1 $x d out lit s:{}", hexs("t")) } else if collide && crng.chance(1, 2) { format!("Done 1 ${} d out var {}", inputs[0], inputs[0]) } else { "Done 1 $x d out var x".to_string() });
     // the order in which the arms are written: one machine in three has them shuffled (the terminal arm may come first)
     if crng.chance(1, 3) { for i in (1..arms.len()).rev() { let j = crng.below(i as u64 + 1) as usize; arms.swap(i, j); } sink.hit("arms-shuffled"); }
